@@ -126,7 +126,9 @@ pub fn catalogue() -> Vec<OpDef> {
         OpDef { name: "model.identifiable_elements.count", writer: false, run: |f| f.model.identifiable_elements().count().to_string() },
         OpDef { name: "f1.elements_dfs.count", writer: false, run: |f| f.f1.elements_dfs().count().to_string() },
         OpDef { name: "f1.check_version_compatibility", writer: false, run: |f| f.f1.check_version_compatibility(AutosarVersion::Autosar_4_2_2).0.len().to_string() },
+        OpDef { name: "f2.model", writer: false, run: |f| r(f.f2.model(), |_| "model".to_string()) },
         // ---- writers
+        OpDef { name: "f2.set_filename(g.arxml)", writer: true, run: |f| r(f.f2.set_filename("g.arxml"), |()| String::new()) },
         OpDef { name: "pkg_a.get_or_create(CATEGORY)", writer: true, run: |f| r(f.pkg_a.get_or_create_sub_element(ElementName::Category), |_| String::new()) },
         OpDef { name: "pkgs.create_named(C)", writer: true, run: |f| r(f.pkgs.create_named_sub_element(ElementName::ArPackage, "C"), |_| String::new()) },
         OpDef { name: "pkgs.create_named(A2)", writer: true, run: |f| r(f.pkgs.create_named_sub_element(ElementName::ArPackage, "A2"), |_| String::new()) },
@@ -141,6 +143,7 @@ pub fn catalogue() -> Vec<OpDef> {
         OpDef { name: "dc_rules.create(DATA-CONSTR-RULE)", writer: true, run: |f| r(f.dc_rules.create_sub_element(ElementName::DataConstrRule), |_| String::new()) },
         OpDef { name: "root.remove(pkgs)", writer: true, run: |f| r(f.model.root_element().remove_sub_element(f.pkgs.clone()), |()| String::new()) },
         OpDef { name: "root.copy(pkgs)", writer: true, run: |f| r(f.model.root_element().create_copied_sub_element(&f.pkgs), |_| String::new()) },
+        OpDef { name: "model.remove_file(last file)(single-file fixture)", writer: true, run: |f| { f.model.remove_file(&f.f2); String::new() } },
         OpDef { name: "model.remove_all_files(composite)", writer: true, run: |f| { f.model.remove_file(&f.f1); f.model.remove_file(&f.f2); String::new() } },
         OpDef { name: "sn_a.set_character_data(A3)", writer: true, run: |f| r(f.sn_a.set_character_data("A3"), |()| String::new()) },
         OpDef { name: "ref.set_reference_target(sig)", writer: true, run: |f| r(f.fibex_ref.set_reference_target(&f.signal), |()| String::new()) },
@@ -198,6 +201,15 @@ fn final_state(f: &Fixture) -> String {
 }
 
 /// all sequential outcomes of the operations (every order), plus the outcomes with one operation left out
+/// the shared fixture; operations marked "(single-file fixture)" get a model whose first file was removed before the run starts
+fn fixture_for(ops: &[&OpDef], mixed: bool) -> Fixture {
+    let f = fixture(mixed);
+    if ops.iter().any(|o| o.name.ends_with("(single-file fixture)")) {
+        let _ = f.model.remove_file(&f.f1);
+    }
+    f
+}
+
 fn sequential_outcomes(ops: &[&OpDef], mixed: bool) -> (Vec<PairOutcome>, Vec<(usize, PairOutcome)>) {
     let n = ops.len();
     let mut orders: Vec<Vec<usize>> = Vec::new();
@@ -219,7 +231,7 @@ fn sequential_outcomes(ops: &[&OpDef], mixed: bool) -> (Vec<PairOutcome>, Vec<(u
     perm(&mut Vec::new(), &mut vec![false; n], n, &mut orders);
     let mut full = Vec::new();
     for order in &orders {
-        let f = fixture(mixed);
+        let f = fixture_for(ops, mixed);
         let mut results = vec![String::new(); n];
         for i in order {
             results[*i] = (ops[*i].run)(&f);
@@ -230,7 +242,7 @@ fn sequential_outcomes(ops: &[&OpDef], mixed: bool) -> (Vec<PairOutcome>, Vec<(u
     let mut partial = Vec::new();
     for skip in 0..n {
         for order in &orders {
-            let f = fixture(mixed);
+            let f = fixture_for(ops, mixed);
             let mut results = vec![String::new(); n];
             for i in order {
                 if *i != skip {
@@ -251,7 +263,7 @@ pub struct Explore {
 
 /// run one schedule of the given operations
 fn run_schedule(sched: &Arc<Sched>, ops: &[&OpDef], mixed: bool, policy: Policy, eager: bool) -> (Outcome, Fixture) {
-    let f = fixture(mixed);
+    let f = fixture_for(ops, mixed);
     let closures: Vec<Box<dyn FnOnce() -> String + Send>> = ops
         .iter()
         .map(|op| {
@@ -408,20 +420,38 @@ fn explore(prop: &str, rep: &mut Report, sched: &Arc<Sched>, ops: &[&OpDef], mix
             let deviations = prefix.iter().filter(|c| **c != 0).count();
             if deviations < bound {
                 let mut children: Vec<Vec<usize>> = Vec::new();
+                let mut while_holding: Vec<bool> = Vec::new();
                 for (i, cp) in out.choices.iter().enumerate().skip(prefix.len()) {
                     for alt in 1..cp.candidates {
                         let mut p: Vec<usize> = out.choices[..i].iter().map(|c| c.taken).collect();
                         p.push(alt);
                         children.push(p);
+                        while_holding.push(cp.holding > 0);
                     }
                 }
                 // single deviations from the default schedule: when there are more deviation points than the budget allows,
                 // take them evenly spaced over the whole run instead of only the last ones (the stack is last-in first-out)
                 if prefix.is_empty() && children.len() + 1 > dfs_cap {
                     let keep = if bound == 1 { dfs_cap.saturating_sub(1).max(1) } else { (dfs_cap / 3).max(1) };
-                    let n = children.len();
-                    let picked: Vec<Vec<usize>> = (0..keep).map(|k| children[(k * n / keep + (n / keep) / 2).min(n - 1)].clone()).collect();
+                    // a deadlock needs a thread that is preempted while it holds a lock; an atomicity break needs a preemption
+                    // between two critical sections: C15 spends three quarters of the budget on the first kind, C16 half
+                    let (hold, free): (Vec<_>, Vec<_>) = children.iter().cloned().zip(while_holding.iter().copied()).partition(|(_, h)| *h);
+                    let spaced = |v: &[(Vec<usize>, bool)], keep: usize| -> Vec<Vec<usize>> {
+                        let n = v.len();
+                        if n <= keep {
+                            return v.iter().map(|(p, _)| p.clone()).collect();
+                        }
+                        (0..keep).map(|k| v[(k * n / keep + (n / keep) / 2).min(n - 1)].0.clone()).collect()
+                    };
+                    let share = if prop == "C15" { keep * 3 / 4 } else { keep / 2 };
+                    let k_hold = share.min(hold.len());
+                    let k_free = (keep - k_hold).min(free.len());
+                    let k_hold = (keep - k_free).min(hold.len());
+                    let mut picked = spaced(&free, k_free);
+                    picked.extend(spaced(&hold, k_hold));
                     rep.count("dfs_tuples_with_evenly_spaced_deviation_points", 1);
+                    rep.count("dfs_deviation_points_while_holding_a_lock", hold.len() as u64);
+                    rep.count("dfs_deviation_points_between_critical_sections", free.len() as u64);
                     children = picked;
                     children.dedup();
                 }
@@ -500,6 +530,12 @@ pub fn worker_main(prop: &str, tier: &str, seed: u64, shard: usize, shards: usiz
             if !cat[i].writer && !cat[j].writer && !(thorough || (i + j) % 7 == 0) {
                 continue;
             }
+            // the single-file fixture exists for C15 (lock order of the "last file removed" branch); for C16 that branch is one more
+            // top-down removal that is not atomic with respect to anything working inside the tree - the class already recorded for
+            // root.remove(pkgs) - and would only multiply its signatures
+            if prop == "C16" && (cat[i].name.ends_with("(single-file fixture)") || cat[j].name.ends_with("(single-file fixture)")) {
+                continue;
+            }
             for mixed in [false, true] {
                 if mixed && !(cat[i].name.contains("serialize") || cat[j].name.contains("serialize") || cat[i].name.contains("set_version") || cat[j].name.contains("set_version")) {
                     continue;
@@ -507,6 +543,14 @@ pub fn worker_main(prop: &str, tier: &str, seed: u64, shard: usize, shards: usiz
                 index += 1;
                 if index % shards != shard {
                     continue;
+                }
+                // debugging aid: VERIF_SCHED_ONLY="<name of op a>|<name of op b>" restricts the exploration to one pair
+                if let Ok(only) = std::env::var("VERIF_SCHED_ONLY") {
+                    let mut it = only.split('|');
+                    let (a, b) = (it.next().unwrap_or(""), it.next().unwrap_or(""));
+                    if !((cat[i].name == a && cat[j].name == b) || (cat[i].name == b && cat[j].name == a)) {
+                        continue;
+                    }
                 }
                 tuples += 1;
                 // the random schedules are drawn from a fixed stream per tuple: the exploration is the same for every VERIF_SEED, so that
